@@ -17,3 +17,62 @@ fn tiny_frame_bytes_parse() {
     assert_eq!(frame.header().width, 8);
     println!("toc {:?} read bits {}", frame.toc(), bs.num_read_bits());
 }
+
+// ---- model-level exploration of the container reference semantics (finds counterexamples fast)
+use jxl_verif_harness::spec::container::*;
+
+fn feed_all(s: &mut CState, buf: &[u8], base: usize, out: &mut Vec<Ev>, consumed: &mut usize) -> bool {
+    let mut pos = 0usize;
+    loop {
+        match spec_step(s, buf, &mut pos) {
+            StepOut::NeedMore => { *consumed = pos; return true; }
+            StepOut::Err => return false,
+            StepOut::Event(mut e) => {
+                if e.kind == 2 || e.kind == 5 { e.off += base; }
+                if let Some(last) = out.last_mut() {
+                    if (e.kind == 2 || e.kind == 5) && last.kind == e.kind && last.ty == e.ty && last.off + last.len == e.off {
+                        last.len += e.len;
+                        continue;
+                    }
+                }
+                if !((e.kind == 2 || e.kind == 5) && e.len == 0) { out.push(e); }
+            }
+        }
+    }
+}
+
+#[test]
+fn model_chunking_search() {
+    let mut seed = 0x1234_5678_9abc_def0u64;
+    let mut rnd = move || { seed ^= seed << 13; seed ^= seed >> 7; seed ^= seed << 17; seed };
+    let types: [&[u8; 4]; 5] = [b"jxlc", b"jxlp", b"Exif", b"brob", b"jxll"];
+    let mut found = 0;
+    for _ in 0..6_000_000 {
+        let mut buf = [0u8; 12];
+        for b in buf.iter_mut() { *b = (rnd() % 4) as u8; }
+        buf[3] = [0u8, 1, 8, 9, 10, 12, 13][(rnd() % 7) as usize];
+        buf[4..8].copy_from_slice(types[(rnd() % 5) as usize]);
+        if rnd() % 4 == 0 { buf[8] = 0x80; }
+        let len = 1 + (rnd() % 12) as usize;
+        let k = (rnd() % (len as u64 + 1)) as usize;
+        let small = |r: u64| -> Option<u64> { if r % 3 == 0 { None } else { Some((r >> 8) % 20) } };
+        let ty = |r: u64| -> [u8; 4] { *types[(r % 5) as usize] };
+        let pre = CState { arm: (rnd() % 5) as u8, box_type: ty(rnd()), box_size: small(rnd()),
+            brotli_box_type: if rnd() % 2 == 0 { None } else { Some(ty(rnd())) }, bytes_left: small(rnd()).map(|x| x as usize), kind: (rnd() % 4) as u8,
+            pending_no_more_aux_box: rnd() % 2 == 0, jxlp_state: (rnd() % 4) as u8, jxlp_index: (rnd() % 3) as u32 };
+        if !state_valid(&pre) { continue; }
+        if pre.arm == 0 { let sig = b"\x00\x00\x00\x0cJXL \x0d\x0a\x87\x0a"; if rnd() % 2 == 0 { buf.copy_from_slice(sig); if rnd() % 4 == 0 { buf[(rnd() % 12) as usize] ^= 1; } } else { buf[0] = 0xff; buf[1] = 0x0a; } }
+        let (mut sa, mut sb) = (pre, pre);
+        let (mut ea, mut eb) = (Vec::new(), Vec::new());
+        let (mut ca, mut c1, mut c2) = (0, 0, 0);
+        let ok_a = feed_all(&mut sa, &buf[..len], 0, &mut ea, &mut ca);
+        let ok_b1 = feed_all(&mut sb, &buf[..k], 0, &mut eb, &mut c1);
+        let ok_b = ok_b1 && feed_all(&mut sb, &buf[c1..len], c1, &mut eb, &mut c2);
+        if ok_a != ok_b || (ok_a && (ea != eb || normalized(&sa) != normalized(&sb) || ca != c1 + c2)) {
+            println!("buf {:02x?} len {len} k {k} pre jxlp {}/{}\n  whole: ok {ok_a} {:?}\n  split: ok {ok_b} {:?}\n  sa {:?}\n  sb {:?}", &buf[..len], pre.jxlp_state, pre.jxlp_index, ea, eb, sa, sb);
+            found += 1;
+            if found >= 3 { break; }
+        }
+    }
+    assert_eq!(found, 0, "chunk-dependent behaviour in the reference semantics");
+}
